@@ -1,5 +1,449 @@
-//! Conformance harness for property C02, see /verif/DESIGN.md.
+//! Conformance harness for properties C02 (control flow and exit status) and
+//! C10 (abort on errexit / shell errors); see /verif/DESIGN.md section 6 and
+//! spec/Semantics.tla.
+//!
+//!   yv-c02 run    --in gen.ndjson --out verdicts.ndjson --mode sim|real [--variants V] [--every N] [--jobs J]
+//!       P2: every program printed by TLC (Gen_Semantics) with the outcome the
+//!       specification prescribes is rendered to shell text (seeded surface
+//!       variation), executed and compared.
+//!   yv-c02 random --n N --size S --profile c02|c10 --out recs.ndjson --full recs.full.ndjson [--jobs J]
+//!       P3: seeded random larger programs are executed and recorded for
+//!       validation by spec/Trace_Semantics.tla.
+//!   yv-c02 redo   --in replay.json
+//!       re-executes the program of a replay file and prints the observation.
+//!
+//! Every execution happens in a worker process supervised with a watchdog: a
+//! hang or a crash of the shell is recorded as data (outcome "timeout" /
+//! "crash"), never a harness failure.
+mod ast;
+mod exec;
+mod randgen;
+mod render;
+
+use ast::{Node, Tok};
+use exec::Obs;
+use rand::SeedableRng;
+use rand::rngs::StdRng;
+use render::{Mode, Renderer};
+use serde_json::{Value, json};
+use std::io::{BufRead, BufReader, Write};
+use std::process::{Command, Stdio};
+use std::sync::mpsc;
+use std::time::Duration;
+use yvcommon::util::{opt, opt_usize, seed};
+
+const STALL: Duration = Duration::from_secs(12);
+
+fn mix(a: u64, b: u64) -> u64 {
+    let mut x = a.wrapping_mul(0x9E37_79B9_7F4A_7C15).wrapping_add(b).wrapping_add(0x632B_E59B_D9B4_E019);
+    x ^= x >> 29;
+    x = x.wrapping_mul(0xBF58_476D_1CE4_E5B9);
+    x ^= x >> 32;
+    x
+}
+
+fn tr_json(tr: &[(i64, i64)]) -> Value {
+    Value::Array(tr.iter().map(|(m, s)| json!([m, s])).collect())
+}
+
+fn tr_of(v: &Value) -> Vec<(i64, i64)> {
+    v.as_array()
+        .map(|a| a.iter().map(|p| (p[0].as_i64().unwrap_or(0), p[1].as_i64().unwrap_or(0))).collect())
+        .unwrap_or_default()
+}
+
+fn execute(mode: Mode, r: &render::Rendered) -> Obs {
+    match mode {
+        Mode::Sim => exec::run_sim(r),
+        Mode::Real => exec::run_real_shell(r),
+    }
+}
+
+fn obs_json(o: &Obs) -> Value {
+    json!({"oc": o.oc, "st": o.st, "tr": tr_json(&o.tr), "detail": o.detail})
+}
+
+// ---------------------------------------------------------------------------
+// workers
+// ---------------------------------------------------------------------------
+
+fn emit(line: &str) {
+    let out = std::io::stdout();
+    let mut l = out.lock();
+    let _ = l.write_all(line.as_bytes());
+    let _ = l.write_all(b"\n");
+    let _ = l.flush();
+}
+
+/// P2 worker: reads TLC's lines, handles those with index % parts == part and >= skip.
+fn worker_run(args: &[String]) -> i32 {
+    let mode = if opt(args, "--mode") == Some("real") { Mode::Real } else { Mode::Sim };
+    let variants = opt_usize(args, "--variants", 2);
+    let every = opt_usize(args, "--every", 1).max(1);
+    let part = opt_usize(args, "--part", 0);
+    let parts = opt_usize(args, "--parts", 1).max(1);
+    let skip = opt_usize(args, "--skip", 0);
+    let path = opt(args, "--in").expect("--in");
+    let f = BufReader::new(std::fs::File::open(path).expect("open --in"));
+    let sd = seed();
+    for (idx, line) in f.lines().enumerate() {
+        let line = line.expect("read");
+        if idx % parts != part || idx < skip || (idx / parts) % every != 0 {
+            continue;
+        }
+        let v: Value = match serde_json::from_str(&line) {
+            Ok(v) => v,
+            Err(_) => continue,
+        };
+        let toks: Vec<Tok> = serde_json::from_value(v["p"].clone()).expect("tokens");
+        let Some(tree) = ast::parse(&toks) else {
+            emit(&format!("R {}", json!({"i": idx, "bad": "unparsable program"})));
+            continue;
+        };
+        emit(&format!("S {} {}", idx, json!({"i": idx, "p": v["p"]})));
+        let mut runs = 0;
+        let mut unspec = 0;
+        let mut div = 0;
+        let mut unsupported = 0;
+        let mut fails: Vec<Value> = vec![];
+        let mut sample = Value::Null;
+        let has_tick = tree.any(&|n| n.k == "tick");
+        let has_pipe = tree.any(&|n| n.k == "pipe");
+        for (oi, o) in v["o"].as_array().cloned().unwrap_or_default().iter().enumerate() {
+            match o["oc"].as_str().unwrap_or("") {
+                "ok" => {}
+                "unspec" => {
+                    unspec += 1;
+                    continue;
+                }
+                _ => {
+                    div += 1;
+                    continue;
+                }
+            }
+            if mode == Mode::Real && has_tick {
+                unsupported += 1;
+                continue;
+            }
+            let e = o["e"].as_i64().unwrap_or(0) != 0;
+            let t = o["t"].as_i64().unwrap_or(0) != 0;
+            let y = o["y"].as_u64().unwrap_or(0) as usize;
+            let exp_tr = tr_of(&o["tr"]);
+            let exp_st = o["st"].as_i64().unwrap_or(0);
+            for vi in 0..variants {
+                let s = mix(mix(mix(sd, idx as u64), oi as u64), vi as u64);
+                // the first variant is the plain rendering, the others vary the surface
+                let mut rd = Renderer::new(s, mode, vi > 0 || variants == 1 && idx % 2 == 1);
+                let rendered = rd.program(&tree, e, t, y);
+                let obs = execute(mode, &rendered);
+                runs += 1;
+                let verdict = exec::matches(&exp_tr, exp_st, &obs, mode == Mode::Real && has_pipe);
+                if sample.is_null() && (idx % 97 == 0) {
+                    sample = json!({"text": rendered.script, "flags": rendered.flags, "expected": {"tr": o["tr"], "st": exp_st},
+                                    "observed": obs_json(&obs)});
+                }
+                if let Err(why) = verdict {
+                    if fails.len() < 2 {
+                        fails.push(json!({"e": o["e"], "t": o["t"], "y": o["y"], "why": why, "text": rendered.script,
+                            "flags": rendered.flags, "stdin": rendered.via_stdin,
+                            "expected": {"tr": o["tr"], "st": exp_st}, "observed": obs_json(&obs)}));
+                    }
+                }
+            }
+        }
+        emit(&format!(
+            "R {}",
+            json!({"i": idx, "p": v["p"], "runs": runs, "unspec": unspec, "div": div, "unsupported": unsupported,
+                   "fails": fails, "sample": sample})
+        ));
+    }
+    0
+}
+
+/// P3 worker: generates program i from the seed, executes it, records it.
+fn worker_random(args: &[String]) -> i32 {
+    let n = opt_usize(args, "--n", 100);
+    let size = opt_usize(args, "--size", 40);
+    let profile = opt(args, "--profile").unwrap_or("c02").to_string();
+    let part = opt_usize(args, "--part", 0);
+    let parts = opt_usize(args, "--parts", 1).max(1);
+    let skip = opt_usize(args, "--skip", 0);
+    let sd = seed();
+    for idx in 0..n {
+        if idx % parts != part || idx < skip {
+            continue;
+        }
+        let mut rng = StdRng::seed_from_u64(mix(mix(sd, 0x5eed), idx as u64));
+        use rand::Rng;
+        let sz = rng.gen_range(3..=size);
+        let errors = profile == "c10";
+        let tree0 = {
+            let mut g = randgen::Gen { rng: &mut rng, errors };
+            g.cmd(sz, randgen::Ctx { ld: 0, infn: false, nocnt: false, rank: 0 })
+        };
+        let mut toks = vec![];
+        ast::flatten(&tree0, &mut toks);
+        let tree = ast::parse(&toks).expect("own program parses");
+        let nl = tree.lines().len();
+        let (e, t, y) = if errors {
+            (rng.gen_bool(0.5), rng.gen_bool(0.6), if rng.gen_bool(0.2) { rng.gen_range(1..=nl) } else { 0 })
+        } else {
+            (false, rng.gen_bool(0.2), 0)
+        };
+        let mut rd = Renderer::new(mix(sd, idx as u64), Mode::Sim, true);
+        let rendered = rd.program(&tree, e, t, y);
+        let head = json!({"i": idx, "p": toks, "e": e as i64, "t": t as i64, "y": y, "text": rendered.script,
+                          "flags": rendered.flags, "stdin": rendered.via_stdin});
+        emit(&format!("S {} {}", idx, head));
+        let obs = exec::run_sim(&rendered);
+        let mut rec = head;
+        rec["oc"] = json!(obs.oc);
+        rec["tr"] = tr_json(&obs.tr);
+        rec["st"] = json!(obs.st);
+        rec["detail"] = json!(obs.detail);
+        emit(&format!("R {rec}"));
+    }
+    0
+}
+
+// ---------------------------------------------------------------------------
+// supervisor
+// ---------------------------------------------------------------------------
+
+/// Runs `worker` (a sub-command of this binary) as child processes, `jobs` in
+/// parallel, each restarted after a stall or crash.  `on_result` receives
+/// every result record; `on_lost(pending, why)` builds the record for an item
+/// whose execution hung ("timeout") or killed the worker ("crash").
+fn supervise(worker: &str, args: &[String], jobs: usize, sink: &mut dyn FnMut(Value)) -> Result<(), String> {
+    let exe = std::env::current_exe().map_err(|e| e.to_string())?;
+    let (tx, rx) = mpsc::channel::<Result<Value, String>>();
+    let mut handles = vec![];
+    for part in 0..jobs {
+        let tx = tx.clone();
+        let exe = exe.clone();
+        let args: Vec<String> = args.to_vec();
+        let worker = worker.to_string();
+        handles.push(std::thread::spawn(move || {
+            let mut skip = 0usize;
+            let mut restarts = 0;
+            loop {
+                let mut child = match Command::new(&exe)
+                    .arg(&worker)
+                    .args(&args)
+                    .args(["--part", &part.to_string(), "--parts", &jobs.to_string(), "--skip", &skip.to_string()])
+                    .stdin(Stdio::null())
+                    .stdout(Stdio::piped())
+                    .stderr(Stdio::null())
+                    .spawn()
+                {
+                    Ok(c) => c,
+                    Err(e) => {
+                        let _ = tx.send(Err(format!("cannot spawn worker: {e}")));
+                        return;
+                    }
+                };
+                let stdout = child.stdout.take().unwrap();
+                let (ltx, lrx) = mpsc::channel::<String>();
+                let reader = std::thread::spawn(move || {
+                    for line in BufReader::new(stdout).lines().map_while(Result::ok) {
+                        if ltx.send(line).is_err() {
+                            break;
+                        }
+                    }
+                });
+                let mut pending: Option<(usize, Value)> = None;
+                let mut lost: Option<&'static str> = None;
+                loop {
+                    match lrx.recv_timeout(STALL) {
+                        Ok(line) => {
+                            if let Some(rest) = line.strip_prefix("S ") {
+                                let mut it = rest.splitn(2, ' ');
+                                let idx: usize = it.next().and_then(|s| s.parse().ok()).unwrap_or(0);
+                                let v: Value = it.next().and_then(|s| serde_json::from_str(s).ok()).unwrap_or(Value::Null);
+                                pending = Some((idx, v));
+                            } else if let Some(rest) = line.strip_prefix("R ") {
+                                pending = None;
+                                match serde_json::from_str::<Value>(rest) {
+                                    Ok(v) => {
+                                        let _ = tx.send(Ok(v));
+                                    }
+                                    Err(e) => {
+                                        let _ = tx.send(Err(format!("bad worker line: {e}")));
+                                    }
+                                }
+                            }
+                        }
+                        Err(mpsc::RecvTimeoutError::Timeout) => {
+                            let _ = child.kill();
+                            lost = Some("timeout");
+                            break;
+                        }
+                        Err(mpsc::RecvTimeoutError::Disconnected) => break,
+                    }
+                }
+                let status = child.wait();
+                let _ = reader.join();
+                let clean = matches!(&status, Ok(s) if s.success());
+                if lost.is_none() && !clean {
+                    lost = Some("crash");
+                }
+                match (lost, pending) {
+                    (None, _) => return,
+                    (Some(why), Some((idx, mut v))) => {
+                        v["lost"] = json!(why);
+                        let _ = tx.send(Ok(v));
+                        skip = idx + 1;
+                        restarts += 1;
+                        if restarts > 200 {
+                            let _ = tx.send(Err("too many worker restarts".into()));
+                            return;
+                        }
+                    }
+                    (Some(why), None) => {
+                        let _ = tx.send(Err(format!("worker lost ({why}) outside an execution")));
+                        return;
+                    }
+                }
+            }
+        }));
+    }
+    drop(tx);
+    let mut err = None;
+    for m in rx {
+        match m {
+            Ok(v) => sink(v),
+            Err(e) => err = Some(e),
+        }
+    }
+    for h in handles {
+        let _ = h.join();
+    }
+    match err {
+        Some(e) => Err(e),
+        None => Ok(()),
+    }
+}
+
+fn passthrough(args: &[String]) -> Vec<String> {
+    // everything except --out/--full/--jobs
+    let mut out = vec![];
+    let mut i = 0;
+    while i < args.len() {
+        if matches!(args[i].as_str(), "--out" | "--full" | "--jobs") {
+            i += 2;
+            continue;
+        }
+        out.push(args[i].clone());
+        i += 1;
+    }
+    out
+}
+
+fn cmd_run(args: &[String]) -> i32 {
+    let jobs = opt_usize(args, "--jobs", 4).max(1);
+    let out_path = opt(args, "--out").expect("--out");
+    let mut out = std::io::BufWriter::new(std::fs::File::create(out_path).expect("create --out"));
+    let mut sink = |v: Value| {
+        let _ = writeln!(out, "{v}");
+    };
+    match supervise("worker-run", &passthrough(args), jobs, &mut sink) {
+        Ok(()) => 0,
+        Err(e) => {
+            eprintln!("yv-c02 run: {e}");
+            2
+        }
+    }
+}
+
+fn cmd_random(args: &[String]) -> i32 {
+    let jobs = opt_usize(args, "--jobs", 4).max(1);
+    let out_path = opt(args, "--out").expect("--out");
+    let full_path = opt(args, "--full").expect("--full");
+    let mut recs: Vec<Value> = vec![];
+    let mut sink = |v: Value| recs.push(v);
+    if let Err(e) = supervise("worker-random", &passthrough(args), jobs, &mut sink) {
+        eprintln!("yv-c02 random: {e}");
+        return 2;
+    }
+    recs.sort_by_key(|v| v["i"].as_u64().unwrap_or(0));
+    let mut out = std::io::BufWriter::new(std::fs::File::create(out_path).expect("create --out"));
+    let mut full = std::io::BufWriter::new(std::fs::File::create(full_path).expect("create --full"));
+    for mut v in recs {
+        if let Some(why) = v.get("lost").and_then(|w| w.as_str()).map(|s| s.to_string()) {
+            v["oc"] = json!(why);
+            v["tr"] = json!([]);
+            v["st"] = json!(-1);
+        }
+        let _ = writeln!(full, "{v}");
+        let slim = json!({"p": v["p"], "e": v["e"], "t": v["t"], "y": v["y"], "oc": v["oc"], "tr": v["tr"], "st": v["st"]});
+        let _ = writeln!(out, "{slim}");
+    }
+    0
+}
+
+/// Re-executes one program: {"p": tokens, "e","t","y", optional "text","flags","stdin", "mode"}.
+fn cmd_redo(args: &[String]) -> i32 {
+    let path = opt(args, "--in").expect("--in");
+    let v: Value = serde_json::from_str(&std::fs::read_to_string(path).expect("read --in")).expect("json");
+    let mode = if v["mode"] == "real" { Mode::Real } else { Mode::Sim };
+    let rendered = if let Some(text) = v.get("text").and_then(|t| t.as_str()) {
+        render::Rendered {
+            script: text.to_string(),
+            flags: v["flags"].as_array().map(|a| a.iter().filter_map(|f| f.as_str().map(String::from)).collect()).unwrap_or_default(),
+            via_stdin: v["stdin"].as_bool().unwrap_or(false),
+        }
+    } else {
+        let toks: Vec<Tok> = serde_json::from_value(v["p"].clone()).expect("tokens");
+        let tree: Node = ast::parse(&toks).expect("program");
+        let mut rd = Renderer::new(1, mode, false);
+        rd.program(&tree, v["e"].as_i64().unwrap_or(0) != 0, v["t"].as_i64().unwrap_or(0) != 0, v["y"].as_u64().unwrap_or(0) as usize)
+    };
+    let obs = execute(mode, &rendered);
+    println!("{}", json!({"text": rendered.script, "flags": rendered.flags, "observed": obs_json(&obs)}));
+    0
+}
+
+/// Debug aid: prints the renderings of the programs of a TLC output file.
+fn cmd_render(args: &[String]) -> i32 {
+    let path = opt(args, "--in").expect("--in");
+    let vary = opt_usize(args, "--vary", 0) != 0;
+    let f = BufReader::new(std::fs::File::open(path).expect("open"));
+    for (idx, line) in f.lines().enumerate() {
+        let v: Value = serde_json::from_str(&line.unwrap()).unwrap();
+        let toks: Vec<Tok> = serde_json::from_value(v["p"].clone()).unwrap();
+        let tree = ast::parse(&toks).unwrap();
+        let mut rd = Renderer::new(idx as u64, Mode::Sim, vary);
+        let r = rd.program(&tree, false, false, 0);
+        println!("{}", json!({"i": idx, "text": r.script, "o": v["o"]}));
+    }
+    0
+}
+
 fn main() {
-    eprintln!("yv-c02: not implemented yet");
-    std::process::exit(2);
+    yvcommon::real::maybe_child_main();
+    let args: Vec<String> = std::env::args().collect();
+    if args.len() < 2 {
+        eprintln!("usage: yv-c02 <run|random|redo|render> ...");
+        std::process::exit(2);
+    }
+    let rest = &args[2..];
+    let code = match args[1].as_str() {
+        "run" => cmd_run(rest),
+        "random" => cmd_random(rest),
+        "redo" => cmd_redo(rest),
+        "render" => cmd_render(rest),
+        "worker-run" => {
+            yvcommon::util::quiet_panics();
+            worker_run(rest)
+        }
+        "worker-random" => {
+            yvcommon::util::quiet_panics();
+            worker_random(rest)
+        }
+        other => {
+            eprintln!("unknown subcommand {other}");
+            2
+        }
+    };
+    std::process::exit(code);
 }
